@@ -20,8 +20,12 @@ RULE = ("finite domain of the property enumerated completely: every n <= 150 (qu
 def clear_caches():
     from fast_ticc import matrix_compression as mc
     from fast_ticc.admm import unique_values as uv
-    for f in (mc._upper_triangle_indices, uv._compressed_index, uv.locations_compressed, uv.locations_index_slices):
-        f.cache_clear()
+    # every memo table of the two modules, wherever the source keeps them now
+    for mod in (mc, uv):
+        for name in dir(mod):
+            f = getattr(mod, name)
+            if callable(getattr(f, "cache_clear", None)):
+                f.cache_clear()
 
 
 def impl_triu(n):
